@@ -7,6 +7,7 @@ From JB Require Import Constants Bytes Utf8 Num Value Codec Decimal JsonText Ord
 From JB Require Import RenderWalk.
 From JB Require Import SelWalk.
 From JB Require Import ContainWalk.
+From JB Require Import SetWalk.
 Extraction Language OCaml.
 Extraction "model.ml"
   to_vec write_to_vec enc parse_jsonb is_jsonb assoc_insert
@@ -14,6 +15,7 @@ Extraction "model.ml"
   parse_value from_slice doc_of cmp_value compare_m value_eqb
   compare_w comparable_w
   contains_w
+  array_distinct_w array_intersection_w array_except_w array_overlap_w
   to_string_w to_pretty_string_w
   array_length_w get_by_index_w get_by_name_w get_by_keypath_w object_keys_w object_each_w array_values_w
   array_length_m get_by_index_m get_by_name_m get_by_keypath_m object_keys_m object_each_m array_values_m type_of_m
